@@ -193,10 +193,22 @@ fn perms(v: &[usize]) -> Vec<Vec<usize>> {
 
 fn dense_maps(shared: &SharedReport) {
     let mut r = shared.lock().unwrap();
-    for n in 0..=4usize {
+    for n in 0..=9usize {
         let keys: Vec<usize> = (0..n).collect();
         let want: Vec<u8> = (0..n).map(|k| 10 + k as u8).collect();
-        for p in perms(&keys) {
+        // all orders up to 5 keys; beyond that the identity, the reverse and a rotation
+        let orders = |keys: &Vec<usize>| -> Vec<Vec<usize>> {
+            if keys.len() <= 5 {
+                perms(keys)
+            } else {
+                let mut rev = keys.clone();
+                rev.reverse();
+                let mut rot = keys.clone();
+                rot.rotate_left(2);
+                vec![keys.clone(), rev, rot]
+            }
+        };
+        for p in orders(&keys) {
             r.evaluations += 1;
             r.nontrivial += 1;
             r.states += 1;
@@ -257,7 +269,7 @@ fn dense_maps(shared: &SharedReport) {
                         }
                     }
                     // rewrite: value of key k moves to key plan(k) (values are ids too)
-                    for q in perms(&keys) {
+                    for q in orders(&keys) {
                         let plan = RewritePlan::<Id, _>::from_values_to_sort(&q);
                         let mi: DenseNatMap<Id, Id> = (0..n).map(|k| (Id::from(k), Id::from((k + 1) % n.max(1)))).collect();
                         let got = mi.rewrite(&plan);
@@ -282,7 +294,7 @@ fn dense_maps(shared: &SharedReport) {
                     if ks.iter().copied().collect::<std::collections::BTreeSet<_>>() == (0..n).collect() {
                         continue;
                     }
-                    for p in perms(&ks).into_iter().take(6) {
+                    for p in orders(&ks).into_iter().take(6) {
                         r.evaluations += 1;
                         let res = catch_unwind(AssertUnwindSafe(|| p.iter().map(|k| (Id::from(*k), 1u8)).collect::<DenseNatMap<Id, u8>>()));
                         if res.is_ok() {
@@ -292,7 +304,7 @@ fn dense_maps(shared: &SharedReport) {
                 }
                 let mut ks: Vec<usize> = (0..n).collect();
                 ks.push(missing);
-                for p in perms(&ks).into_iter().take(6) {
+                for p in orders(&ks).into_iter().take(6) {
                     r.evaluations += 1;
                     let res = catch_unwind(AssertUnwindSafe(|| p.iter().map(|k| (Id::from(*k), 1u8)).collect::<DenseNatMap<Id, u8>>()));
                     if res.is_ok() {
@@ -302,6 +314,6 @@ fn dense_maps(shared: &SharedReport) {
             }
         }
     }
-    r.sample(1, || json!({"dense_maps": "all permutations of <=4 pairs, inserts at every position, all plans"}));
+    r.sample(1, || json!({"dense_maps": "all permutations of <=5 pairs (3 orders for 6..9), inserts at every position, all plans"}));
     r.outcome("densemaps".into());
 }
